@@ -461,15 +461,26 @@ Lemma global_clip_outside : forall o r,
   bg_ok o -> global_clip_px o (imode_eqb (create_mode o) M_RGBA) r true = create_px o.
 Proof.
   intros o r H. pose proof (create_px_ok o H) as OK.
-  unfold global_clip_px. cbn [px_a clear_px].
+  unfold global_clip_px, paste_l_px.
   destruct (create_mode o) eqn:CM; cbn [imode_eqb].
   - pose proof (create_px_rgb_alpha o CM) as A.
     destruct (create_px o) as [[[dr dg] db] da]. destruct r as [[[sr sg] sb] sa].
-    cbn [set_a px_a paste_mask_px] in *. destruct OK as (Hr & Hg & Hb & Ha). subst da.
-    rewrite !blend8_zero by assumption. reflexivity.
+    cbn [px_a] in *. destruct OK as (Hr & Hg & Hb & Ha). subst da.
+    rewrite !blend8_full by assumption. reflexivity.
   - destruct (create_px o) as [[[dr dg] db] da]. destruct r as [[[sr sg] sb] sa].
-    cbn [set_a px_a paste_mask_px] in *. destruct OK as (Hr & Hg & Hb & Ha).
-    rewrite !blend8_zero by assumption. reflexivity.
+    destruct OK as (Hr & Hg & Hb & Ha).
+    rewrite !blend8_full by assumption. reflexivity.
+Qed.
+
+(* inside the global mask the merged pixel is kept, colour and alpha *)
+Lemma global_clip_inside : forall o composite r,
+  px_ok r -> (composite = false -> px_a r = 255) -> global_clip_px o composite r false = r.
+Proof.
+  intros o composite [[[sr sg] sb] sa] (Hr & Hg & Hb & Ha) A. unfold global_clip_px, paste_l_px.
+  destruct (create_px o) as [[[dr dg] db] da].
+  rewrite !blend8_zero by assumption. destruct composite.
+  - reflexivity.
+  - cbn [px_a] in A. rewrite (A eq_refl). reflexivity.
 Qed.
 
 Lemma merge_px_global_outside : forall o ms col,
@@ -493,14 +504,13 @@ Proof.
     + cbn [snd]. exact G.
 Qed.
 
-(* per-layer clip: outside its mask a clipped layer leaves the pixel as it was - except on the blend path *)
+(* per-layer clip: outside its mask a clipped layer leaves the pixel as it was, on every path of the loop *)
 Lemma step_px_clip_outside : forall composite m d s,
   lm_clip m = true ->
-  (composite = true \/ op_lt1 (layer_opacity m) = false) ->
   (composite = false -> px_ok d /\ px_a d = 255) ->
   step_px composite m d s true = d.
 Proof.
-  intros composite m d s C H OK. unfold step_px, layer_px. rewrite C.
+  intros composite m d s C OK. unfold step_px, layer_px. rewrite C.
   destruct composite.
   - destruct (layer_opacity m) as [op|] eqn:O.
     + destruct (op_lt1 (Some op)).
@@ -508,38 +518,42 @@ Proof.
         apply ac_px_transparent_src. reflexivity.
       * apply ac_px_transparent_src. reflexivity.
     + apply ac_px_transparent_src. reflexivity.
-  - destruct H as [H|H]; [discriminate|]. destruct (OK eq_refl) as [P A].
+  - destruct (OK eq_refl) as [P A].
     destruct d as [[[dr dg] db] da]. cbn [px_a] in A. subst da. destruct P as (Hr & Hg & Hb & _).
     destruct (layer_opacity m) as [op|] eqn:O.
-    + rewrite H. unfold paste_mask_px, clear_px. rewrite !blend8_zero by assumption. reflexivity.
+    + destruct (op_lt1 (Some op)).
+      * cbn [clear_px px_a set_a]. unfold paste_l_px.
+        destruct (blend_px op (dr, dg, db, 255) (255, 255, 255, 255)) as [[[br bg] bb] ba].
+        rewrite !blend8_zero by assumption. reflexivity.
+      * unfold paste_mask_px, clear_px. rewrite !blend8_zero by assumption. reflexivity.
     + unfold paste_mask_px, clear_px. rewrite !blend8_zero by assumption. reflexivity.
 Qed.
 
-Lemma step_px_clip_blend_refuted :
-  exists m d s, lm_clip m = true /\ px_ok d /\ px_a d = 255 /\ step_px false m d s true <> d.
+(* the code before the repair 2542798 (blend without the alpha band) violated this: the old step on the blend
+   path, `blend_px op d (set_a s 255)`, turns black into grey under a layer of opacity 1/2 that is clipped away *)
+Lemma old_blend_path_refuted :
+  exists op d, px_ok d /\ px_a d = 255 /\ blend_px op d (set_a clear_px 255) <> d.
 Proof.
-  exists (mk_lmeta M_RGB (Some (mk_lopts (Some true) (Some (1, 2)))) true), (0, 0, 0, 255), (9, 9, 9, 255).
-  split; [reflexivity|]. split; [unfold px_ok, byte; lia|]. split; [reflexivity|].
+  exists (1, 2), (0, 0, 0, 255). split; [unfold px_ok, byte; lia|]. split; [reflexivity|].
   vm_compute. intros H. discriminate.
 Qed.
 
 (* a pixel outside the mask of every layer of the stack (all of them clipped) stays what it was *)
 Lemma loop_px_all_outside : forall composite ms col d,
-  Forall (fun m => lm_clip m = true /\ (composite = true \/ op_lt1 (layer_opacity m) = false)) ms ->
+  Forall (fun m => lm_clip m = true) ms ->
   Forall (fun sb : px * bool => snd sb = true) col ->
   (composite = false -> px_ok d /\ px_a d = 255) ->
   loop_px composite ms col d = d.
 Proof.
   intros composite ms. induction ms as [|m ms IH]; intros col d Hm Hc OK; [reflexivity|].
   destruct col as [|[s out] col]; [reflexivity|]. cbn [loop_px].
-  inversion Hm as [|? ? [C H] Hm']; subst. inversion Hc as [|? ? Hout Hc']; subst. cbn [snd] in Hout. subst out.
+  inversion Hm as [|? ? C Hm']; subst. inversion Hc as [|? ? Hout Hc']; subst. cbn [snd] in Hout. subst out.
   rewrite step_px_clip_outside by assumption. apply IH; assumption.
 Qed.
 
 Lemma merge_px_all_outside : forall o ms col,
   bg_ok o ->
-  Forall (fun m => lm_clip m = true /\
-                   (imode_eqb (create_mode o) M_RGBA = true \/ op_lt1 (layer_opacity m) = false)) ms ->
+  Forall (fun m => lm_clip m = true) ms ->
   Forall (fun sb : px * bool => snd sb = true) col ->
   merge_px o ms col None = create_px o.
 Proof.
@@ -571,12 +585,12 @@ Proof.
     assert (P : paste_mask_px false (dr, dg, db, 255) (sr, sg, sb, 255) = (sr, sg, sb, 255)).
     { unfold paste_mask_px. rewrite !blend8_full by assumption. reflexivity. }
     rewrite P. destruct G as [G|G]; subst gout; [reflexivity|].
-    cbn [set_a px_a]. exact P.
+    unfold paste_l_px. rewrite !blend8_zero by assumption. reflexivity.
   - rewrite ac_px_opaque_src by assumption.
     destruct G as [G|G]; subst gout; [reflexivity|].
     destruct (create_px o) as [[[dr dg] db] da]. destruct s as [[[sr sg] sb] sa].
-    cbn [px_a] in A. subst sa. cbn [set_a px_a]. destruct S as (Hr & Hg & Hb & Ha).
-    unfold paste_mask_px. rewrite !blend8_full by (unfold byte in *; lia). reflexivity.
+    cbn [px_a] in A. subst sa. destruct S as (Hr & Hg & Hb & Ha).
+    unfold paste_l_px. rewrite !blend8_zero by (unfold byte in *; lia). reflexivity.
 Qed.
 
 (* tiles: mask_image_source_from_coverage *)
